@@ -2,6 +2,10 @@
 from cobald.interfaces import Pool
 
 
+class Runaway(RuntimeError):
+    """Raised by a recording pool whose access cap is exceeded."""
+
+
 class RecPool(Pool):
     """A pool whose four properties are plain settable values; every access is logged.
 
@@ -16,11 +20,14 @@ class RecPool(Pool):
         self._utilisation = utilisation
         self._allocation = allocation
         self.log = []
+        self.max_log = None  # a cap on the number of accesses: a service that spins without the clock advancing is stopped
         self.clock = clock
         self.writes = 0
         self.on_write = None
 
     def _rec(self, kind, attr, value):
+        if self.max_log is not None and len(self.log) >= self.max_log:
+            raise Runaway("the pool was accessed %d times: the service is spinning" % len(self.log))
         if self.clock is not None:
             self.log.append((kind, attr, value, self.clock()))
         else:
